@@ -179,6 +179,162 @@ pub fn ffi(req: &Value) -> Value {
 }
 
 pub fn fmt(req: &Value) -> Value { json!({"id": req["id"], "todo": true}) }
-pub fn compile(req: &Value) -> Value { json!({"id": req["id"], "todo": true}) }
+// ---------------------------------------------------------------------------------------------
+// C15: one compilation of one text; what it emits (MIR listing, bytecode listing, WASM bytes, Rust
+// source) travels as text digests, plus the texts themselves when `full` is set.
+fn digest(s: &[u8]) -> String {
+    // FNV-1a 64 twice with different offsets: a fingerprint, not a security hash
+    let mut a: u64 = 0xcbf29ce484222325;
+    let mut b: u64 = 0x84222325cbf29ce4;
+    for &c in s {
+        a = (a ^ c as u64).wrapping_mul(0x100000001b3);
+        b = (b ^ c as u64).wrapping_mul(0x100000001b3).rotate_left(5);
+    }
+    format!("{a:016x}{b:016x}:{}", s.len())
+}
+
+pub fn compile(req: &Value) -> Value {
+    let src = req["src"].as_str().unwrap_or("").to_string();
+    let full = req["full"].as_bool().unwrap_or(false);
+    let what: Vec<String> = req["what"]
+        .as_array()
+        .map(|a| a.iter().filter_map(|v| v.as_str().map(String::from)).collect())
+        .unwrap_or_else(|| ["mir", "bytecode", "wasm", "rust"].iter().map(|s| s.to_string()).collect());
+    let mk = || {
+        let path = req["path"].as_str().map(std::path::PathBuf::from);
+        let mut ctx = mimium_lang::ExecContext::new([].into_iter(), path, mimium_lang::Config::default());
+        if req["sched"].as_bool().unwrap_or(true) {
+            ctx.add_system_plugin(mimium_scheduler::get_default_scheduler_plugin());
+        }
+        ctx.prepare_compiler();
+        ctx
+    };
+    let mut res = serde_json::Map::new();
+    res.insert("id".into(), req["id"].clone());
+    for w in what {
+        let src = src.clone();
+        let r = catch_unwind(AssertUnwindSafe(|| -> Result<Vec<u8>, Value> {
+            let ctx = mk();
+            let c = ctx.get_compiler().unwrap();
+            match w.as_str() {
+                "mir" => c.emit_mir(&src).map(|m| format!("{m}").into_bytes()),
+                "bytecode" => c.emit_bytecode(&src).map(|p| format!("{p}").into_bytes()),
+                "wasm" => c.emit_wasm(&src).map(|o| o.bytes),
+                "rust" => c.emit_rust(&src).map(|o| o.source.into_bytes()),
+                _ => Ok(vec![]),
+            }
+            .map_err(|e| crate::rt::errs_to_json(&e))
+        }));
+        let v = match r {
+            Err(e) => json!({"status": "panic", "msg": crate::panic_msg(e)}),
+            Ok(Err(d)) => json!({"status": "refused", "diags": d, "digest": digest(d.to_string().as_bytes())}),
+            Ok(Ok(bytes)) => {
+                let mut v = json!({"status": "ok", "digest": digest(&bytes)});
+                if full {
+                    v["text"] = json!(String::from_utf8_lossy(&bytes));
+                }
+                v
+            }
+        };
+        res.insert(w, v);
+    }
+    Value::Object(res)
+}
 pub fn threads(req: &Value) -> Value { json!({"id": req["id"], "todo": true}) }
-pub fn rust(req: &Value) -> Value { json!({"id": req["id"], "todo": true}) }
+// ---------------------------------------------------------------------------------------------
+// C18: generated Rust. emit_rust -> rustc --edition=2024 -> run with a host that supplies `now`
+// (in samples) and `samplerate` the way the audio driver does.
+const RUST_HOST: &str = r#"
+struct VerifHost { now: f64, sample_rate: f64 }
+impl MimiumHost for VerifHost {
+    // the core library's scalar functions (crates/lib/mimium-lang/src/plugin/builtin_functins.rs), as the
+    // VM's default plugin supplies them; anything else is a plugin call and not part of the subset
+    fn call_ext(&mut self, name: &str, args: &[Word], _ret_words: usize) -> Result<Vec<Word>, String> {
+        let a = |i: usize| word_to_f64(args[i]);
+        let b = |c: bool| if c { 1.0 } else { 0.0 };
+        let r = match (name, args.len()) {
+            ("neg", 1) => -a(0), ("abs", 1) => a(0).abs(), ("sqrt", 1) => a(0).sqrt(),
+            ("round", 1) => a(0).round(), ("floor", 1) => a(0).floor(), ("ceil", 1) => a(0).ceil(),
+            ("not", 1) => b(a(0) == 0.0),
+            ("sin", 1) => a(0).sin(), ("cos", 1) => a(0).cos(), ("tan", 1) => a(0).tan(),
+            ("sinh", 1) => a(0).sinh(), ("cosh", 1) => a(0).cosh(), ("tanh", 1) => a(0).tanh(),
+            ("asin", 1) => a(0).asin(), ("acos", 1) => a(0).acos(), ("atan", 1) => a(0).atan(),
+            ("probe", 1) | ("probeln", 1) => { eprintln!("{}", a(0)); a(0) }
+            ("add", 2) => a(0) + a(1), ("sub", 2) => a(0) - a(1), ("mult", 2) => a(0) * a(1),
+            ("div", 2) => a(0) / a(1), ("modulo", 2) => a(0) % a(1),
+            ("eq", 2) => b(a(0) == a(1)), ("ne", 2) => b(a(0) != a(1)), ("lt", 2) => b(a(0) < a(1)),
+            ("le", 2) => b(a(0) <= a(1)), ("gt", 2) => b(a(0) > a(1)), ("ge", 2) => b(a(0) >= a(1)),
+            ("atan2", 2) => a(0).atan2(a(1)), ("pow", 2) => a(0).powf(a(1)),
+            ("min", 2) => a(0).min(a(1)), ("max", 2) => a(0).max(a(1)),
+            _ => return Err(format!("unexpected external call: {}", name)),
+        };
+        Ok(vec![f64_to_word(r)])
+    }
+    fn current_time(&mut self) -> f64 { self.now }
+    fn sample_rate(&mut self) -> f64 { self.sample_rate }
+}
+"#;
+
+pub fn rust(req: &Value) -> Value {
+    use std::process::Command;
+    let src = req["src"].as_str().unwrap_or("").to_string();
+    let n = req["n"].as_u64().unwrap_or(8);
+    let dir = req["dir"].as_str().unwrap_or("/tmp").to_string();
+    let id = req["id"].to_string().replace(|c: char| !c.is_ascii_alphanumeric(), "_");
+    let inputs: Vec<Vec<f64>> = req["inputs"]
+        .as_array()
+        .map(|a| a.iter().map(|r| r.as_array().map(|x| x.iter().map(crate::rt::denum).collect()).unwrap_or_default()).collect())
+        .unwrap_or_default();
+    let emitted = catch_unwind(AssertUnwindSafe(|| {
+        let path = req["path"].as_str().map(std::path::PathBuf::from);
+        let mut ctx = mimium_lang::ExecContext::new([].into_iter(), path, mimium_lang::Config::default());
+        ctx.prepare_compiler();
+        ctx.get_compiler().unwrap().emit_rust(&src).map_err(|e| crate::rt::errs_to_json(&e))
+    }));
+    let output = match emitted {
+        Err(e) => return json!({"id": req["id"], "status": "panic", "msg": crate::panic_msg(e)}),
+        Ok(Err(d)) => return json!({"id": req["id"], "status": "refused", "diags": d}),
+        Ok(Ok(o)) => o,
+    };
+    let nin = output.io_channels.map_or(0, |io| io.input as usize);
+    let call_main = if output.source.contains("pub fn call_main") { "    program.call_main().unwrap();\n" } else { "" };
+    let has_dsp = output.source.contains("pub fn call_dsp");
+    let mut body = String::new();
+    if has_dsp {
+    body.push_str("    let inputs: Vec<Vec<f64>> = vec![");
+    for t in 0..n as usize {
+        let row: Vec<String> = (0..nin).map(|c| format!("f64::from_bits({}u64)", inputs.get(t).and_then(|r| r.get(c)).copied().unwrap_or(0.0).to_bits())).collect();
+        body.push_str(&format!("vec![{}],", row.join(",")));
+    }
+    body.push_str("];\n    for row in inputs.iter() {\n        let words: Vec<Word> = row.iter().map(|v| f64_to_word(*v)).collect();\n        let output = program.call_dsp(&words).unwrap();\n        let strs: Vec<String> = output.iter().map(|w| format!(\"{:016x}\", word_to_f64(*w).to_bits())).collect();\n        println!(\"{}\", strs.join(\" \"));\n        program.host.now += 1.0;\n    }\n");
+    } else {
+        body.push_str("    let _ = &mut program;\n");
+    }
+    let main = format!("{RUST_HOST}\nfn main() {{\n    let host = VerifHost {{ now: 0.0, sample_rate: 48_000.0 }};\n    let mut program = MimiumProgram::with_host(host);\n{call_main}{body}}}\n");
+    let _ = std::fs::create_dir_all(&dir);
+    let src_path = format!("{dir}/gen_{id}.rs");
+    let bin_path = format!("{dir}/gen_{id}");
+    std::fs::write(&src_path, format!("{}{main}", output.source)).unwrap();
+    let rustc = std::env::var("RUSTC").unwrap_or_else(|_| "rustc".to_string());
+    let compile = Command::new(&rustc).arg("--edition=2024").arg("-Awarnings").arg("-Copt-level=0").arg(&src_path).arg("-o").arg(&bin_path).output();
+    let res = match compile {
+        Err(e) => json!({"id": req["id"], "status": "tool_error", "msg": e.to_string()}),
+        Ok(c) if !c.status.success() => json!({"id": req["id"], "status": "rustc_failed",
+            "msg": String::from_utf8_lossy(&c.stderr).chars().take(600).collect::<String>()}),
+        Ok(_) => match Command::new(&bin_path).output() {
+            Err(e) => json!({"id": req["id"], "status": "tool_error", "msg": e.to_string()}),
+            Ok(r) if !r.status.success() => json!({"id": req["id"], "status": "run_failed",
+                "msg": String::from_utf8_lossy(&r.stderr).chars().take(400).collect::<String>()}),
+            Ok(r) => {
+                let out: Vec<Value> = String::from_utf8_lossy(&r.stdout)
+                    .lines()
+                    .map(|l| Value::Array(l.split_whitespace().map(|w| crate::rt::word(u64::from_str_radix(w, 16).unwrap_or(0))).collect()))
+                    .collect();
+                json!({"id": req["id"], "status": if has_dsp { "ok" } else { "nodsp" }, "out": out})
+            }
+        },
+    };
+    let _ = std::fs::remove_file(&src_path);
+    let _ = std::fs::remove_file(&bin_path);
+    res
+}
